@@ -77,15 +77,20 @@ PROPS = {
         assumptions=[], not_decided=['bounded stand-in, never counted as proved: structures beyond the bound; run specs outside the enumeration (5 start times x 18 dt values)',
                                      'no contract is discharged on the generated runtime (memoize / LERP live in a jinja template and use numpy / scipy): executed, not verified']),
     'C10': dict(
-        mods=[], k1=[], level='other', engines=['contracts.c10_arrays'],
+        mods=['contracts.c10_shapes'], k1=['DotOperator.resolve_dimensions', 'AdditionOperator.resolve_dimensions', 'SubtractionOperator.resolve_dimensions',
+                                           'DivisionOperator.resolve_dimensions', 'NumericalMultiplicationOperator.resolve_dimensions',
+                                           'MultiplicationOperator.resolve_dimensions'],
+        level='other', engines=['contracts.c10_arrays'],
         harness='verif/native/c10_harness.py', harness_budget=(15, 60), always_harness=True,
-        explanation='BOUNDED in shape, all element values: the real sddsl classes build every arrayed equation of the enumeration (element-wise + - * / '
+        explanation='PROVED for all shapes (K1 contracts on the real resolve_dimensions functions): DotOperator raises exactly where numpy.dot refuses the operand '
+                    'shapes and otherwise returns the dimensions of numpy\'s result (value, [n], [m, p]); the element-wise operators accept only equal shapes or a value '
+                    'partner and return the array operand\'s dimensions. BOUNDED in shape, all element values: the real sddsl classes build every arrayed equation of the enumeration (element-wise + - * / '
                     'with arrays, scalar elements and numbers in both operand orders, indexed and named; dot in all vector/matrix/scalar pairings; the seven '
                     'aggregates; composite forms) for all operand shapes up to the bound (vectors 1..3, matrices up to 3x3, thorough 4); the function string '
                     'generated for every result element is proved equal (z3, reals, all leaf values) to the entry numpy computes on object arrays of the same '
                     'symbolic leaves; mismatched shapes must be refused or must not yield a value. A numeric replay (values vs numpy) runs on every check',
-        assumptions=[], not_decided=['bounded stand-in, never counted as proved: shapes beyond the bound are not covered; no contract is discharged for '
-                                     'all shapes (resolve_dimensions / clone_with_index return int-or-list unions outside the K1 subset)',
+        assumptions=[], not_decided=['the VALUES of the elements are a bounded stand-in, never counted as proved: shapes beyond the bound are not covered (term() / clone_with_index / '
+                                     '_handle_arrayed build strings and model elements: outside the K1 subset); only the shape rules are proved for all shapes',
                                      'refusing a well-shaped form with an error is allowed by the property and only counted (unsupported forms are listed in the evidence)']),
     'C16': dict(
         mods=['contracts.c16_isolation'], k1=K1_C16, level='proof',
